@@ -69,6 +69,9 @@ var accelWideShapes = []struct {
 	{`[^\x00]a`, []rune{'a', 0, 1, 0x10ffff}},
 	{`[xy]\x{D800}a`, []rune{'x', 'y', 'a', 0xd800, 0xfffd, 'b'}},
 	{`ab\x{DFFF}`, []rune{'a', 'b', 0xdfff, 0xfffd}},
+	{`\x{D800}{2}a?`, []rune{'a', 0xd800, 0xfffd}},
+	{`(?>\x{D800}{2}?)b`, []rune{'b', 0xd800, 0xfffd}},
+	{`\x{DC00}{3}`, []rune{0xdc00, 0xfffd, 'a'}},
 	{`[^ÃÂ]*(?:éx|èy)`, []rune{'a', 'x', 'y', 'é', 'è', 'Ã', 'Â'}},
 	{`[^ÃÂ]*(?:(é)|(è))`, []rune{'a', 'é', 'è', 'Ã', 'Â', 'ê'}},
 	{`[^x]*(?:€a|₭b)`, []rune{'a', 'b', 'x', '€', '₭', '₮'}},
